@@ -388,6 +388,51 @@ Proof.
 Qed.
 
 (* ------------------------------------------------------------------ *)
+(* venn: the function returns on every valid input                     *)
+(* ------------------------------------------------------------------ *)
+Lemma option_all_total {A B} (f : A -> option B) l :
+  (forall x, In x l -> exists y, f x = Some y) -> exists l', option_all (map f l) = Some l'.
+Proof.
+  induction l as [|a l IH]; intros H; [exists []; reflexivity|].
+  destruct (H a (or_introl eq_refl)) as [y Hy]. destruct (IH (fun x Hx => H x (or_intror Hx))) as [l' Hl'].
+  exists (y :: l'). cbn [map option_all]. now rewrite Hy, Hl'.
+Qed.
+
+Lemma nscale_bound chunk xbin d : 0 < xbin -> 0 <= d < chunk -> 0 <= d / xbin < nscale chunk xbin.
+Proof.
+  intros Hx Hd. unfold nscale. pose proof (cdiv_spec (2 * chunk + xbin) (2 * xbin) ltac:(lia)).
+  pose proof (Z.div_mod d xbin ltac:(lia)). pose proof (Z.mod_pos_bound d xbin Hx).
+  split; [apply Z.div_pos; lia | nia].
+Qed.
+
+Theorem venn_total P (trains : list (list spike)) :
+  0 < v_xbin P -> 0 < v_chunk P -> (forall t, In t trains -> t <> []) ->
+  (forall t sp, In t trains -> In sp t -> 0 <= snd sp / v_ybin P < v_ny P) ->
+  exists res, venn P trains = Some res.
+Proof.
+  intros Hx Hc Hne Hch. unfold venn.
+  assert (E : existsb (fun t : list spike => match t with [] => true | _ => false end) trains = false).
+  { apply not_true_is_false. intros H. apply existsb_exists in H. destruct H as [t [Ht Hm]].
+    destruct t; [exact (Hne _ Ht eq_refl) | discriminate]. }
+  rewrite E. generalize (repeat 0 (Z.to_nat (2 ^ Z.of_nat (length trains) - 1))).
+  generalize (zrange (Z.to_nat (max_sample trains / v_chunk P + 1))).
+  induction l as [|ch chs IH]; intros pre; [exists pre; reflexivity|].
+  cbn [venn_loop]. unfold chunk_cols, chunk_ids.
+  destruct (option_all_total (fun t => option_all (map (bin_id (v_xbin P) (v_ybin P) (v_nx P) (v_ny P) (ch * v_chunk P))
+                                                   (chunk_spikes (ch * v_chunk P) (v_chunk P) t))) trains) as [idss Hids].
+  { intros t Ht. apply option_all_total. intros sp Hsp. unfold chunk_spikes in Hsp. apply filter_In in Hsp.
+    destruct Hsp as [Hsp Hin]. unfold in_chunk in Hin. apply andb_true_iff in Hin. destruct Hin as [H1 H2].
+    apply Z.leb_le in H1. apply Z.ltb_lt in H2.
+    pose proof (nscale_bound (v_chunk P) (v_xbin P) (fst sp - ch * v_chunk P) Hx ltac:(lia)) as Hb.
+    pose proof (Hch t sp Ht Hsp) as Hy. unfold bin_id. fold (v_nx P) in Hb.
+    destruct (Z.leb_spec 0 ((fst sp - ch * v_chunk P) / v_xbin P)); [|lia].
+    destruct (Z.ltb_spec ((fst sp - ch * v_chunk P) / v_xbin P) (v_nx P)); [|lia].
+    destruct (Z.leb_spec 0 (snd sp / v_ybin P)); [|lia].
+    destruct (Z.ltb_spec (snd sp / v_ybin P) (v_ny P)); [|lia]. cbn [andb]. eexists. reflexivity. }
+  rewrite Hids. apply IH.
+Qed.
+
+(* ------------------------------------------------------------------ *)
 (* voltage.stack                                                       *)
 (* ------------------------------------------------------------------ *)
 Lemma insert_u_in a l x : In x (insert_u a l) <-> x = a \/ In x l.
